@@ -61,6 +61,17 @@ def rnd_history(rnd, nops):
     return prog
 
 
+def chunk_history(rnd):
+    n = rnd.choice([9, 12, 17, 24, 40])
+    data = [rnd.randrange(256) for _ in range(n)]
+    k = rnd.choice([1, 2, 2, 3])
+    sizes = [rnd.choice([1, 2, 3, 5, 7]) for _ in range(k)]
+    prog = [{"op": "init", "a": {"kind": "unix_chunks", "chunks": sizes, "data": data, "pos": 0}}]
+    for _ in range(rnd.choice([1, 2, 3])):
+        prog.append({"op": "read_exact", "a": {"bl": rnd.choice([1, 4, 8, 9, 10, 16, n, n + 1])}})
+    return prog
+
+
 def run(ctx):
     r = tlc_must_pass(TLA, os.path.join(SPEC, "MC_Streams.quick.cfg"), "mc_streams", workers=8, timeout=900)
     ctx.add_mc(r, "MC_Streams.quick.cfg")
@@ -93,6 +104,9 @@ def run(ctx):
     prog = []
     for _ in range(nhist):
         prog += rnd_history(ctx.rnd, nops)
+    # sockets that deliver their data in several chunks (short reads inside the exact loop)
+    for _ in range(60 if ctx.tier == "quick" else 600):
+        prog += chunk_history(ctx.rnd)
     events = run_harness("streams", prog, os.path.join(WORK, "tr_streams.ev.ndjson"))
     judge_chunks(ctx, "tr_streams", events)
     ctx.cov["traces_validated_against_impl"] += nhist
